@@ -1,0 +1,9 @@
+//go:build !verif
+
+package pool
+
+// yield and expose are verification hooks; without the build tag "verif" they are empty and
+// are inlined away. See yield_verif.go for the meaning of the arguments.
+func yield(point, worker int) {}
+
+func expose(ctr *int64, results []interface{}) {}
